@@ -57,7 +57,7 @@ var (
 	c17KeyStore string // PEM file with an EC private key (signer of the jwt finalizer)
 )
 
-const c17FarFuture = 4102444800 // 2100-01-01
+const c17FarFuture = 5000000000 // 2128: exp-now stays between 2^31 and 2^32 seconds until 2060 (the TTL digest records the order of magnitude)
 
 func c17Setup(dir string) {
 	var err error
@@ -181,6 +181,14 @@ func (c17Transport) RoundTrip(req *http.Request) (*http.Response, error) {
 	}
 
 	const js = "application/json"
+
+	// endpoints configured with ?fail=<code> answer with that status (error branches of the mechanisms)
+	switch req.URL.Query().Get("fail") {
+	case "500":
+		return c17Resp(req, 500, "text/plain", "boom", nil), nil
+	case "401":
+		return c17Resp(req, 401, js, `{"error":"unauthorized"}`, nil), nil
+	}
 
 	switch req.URL.Host + req.URL.Path {
 	case "idp.test/.well-known/oauth-authorization-server", "idp.test/.well-known/openid-configuration":
@@ -521,8 +529,31 @@ type c17Eh interface {
 
 // ---------------------------------------------------------------- creation context
 
-type c17Watcher struct{}
+// c17Watcher records the change listeners mechanisms register (key-store reload of the jwt finalizer's signer, of
+// http_message_signatures); the race stream fires them while the mechanisms execute.
+type c17Watcher struct {
+	mu        sync.Mutex
+	listeners []watcher.ChangeListener
+}
 
-func (c17Watcher) Add(string, watcher.ChangeListener) error { return nil }
+func (w *c17Watcher) Add(_ string, cl watcher.ChangeListener) error {
+	w.mu.Lock()
+	w.listeners = append(w.listeners, cl)
+	w.mu.Unlock()
+
+	return nil
+}
+
+func (w *c17Watcher) fire() {
+	w.mu.Lock()
+	ls := append([]watcher.ChangeListener{}, w.listeners...)
+	w.mu.Unlock()
+
+	for _, l := range ls {
+		l.OnChanged(c17Logger)
+	}
+}
+
+var c17LastWatcher *c17Watcher // watcher of the most recently loaded catalogue
 
 var c17Logger = zerolog.Nop()
